@@ -1,7 +1,9 @@
 #!/bin/bash
-# mutants.sh [ids...]: run the quick check of each seeded change's property on a scratch worktree with the change applied
-# (development aid; results in /verif/.run/mutants/<id>.txt)
-mkdir -p /verif/.run/mutants
+# mutants.sh [ids...]: run the check of each seeded change's property on a scratch worktree of /repo with the
+# change applied (development aid). Works from whatever copy of /verif it is started in; results in
+# <root>/.run/mutants/<id>.txt and a summary line per mutant on stdout.
+ROOT=$(cd "$(dirname "$0")/.." && pwd)
+mkdir -p $ROOT/.run/mutants
 IDS=${@:-$(ls /verif/seeded)}
 for id in $IDS; do
   prop=${id%%_*}
@@ -9,12 +11,11 @@ for id in $IDS; do
   git -C /repo worktree remove --force $WT 2>/dev/null
   git -C /repo worktree add -q --detach $WT HEAD || continue
   git -C $WT apply /verif/seeded/$id/patch.diff || { echo "$id: patch failed"; continue; }
-  out=/verif/.run/mutants/$id.txt
-  ( cd /verif && VERIF_REPO=$WT VERIF_SEED=${VERIF_SEED:-1} bin/check $prop --tier ${TIER:-quick} > $out 2>&1; echo "exit=$?" >> $out )
-  # all violated formulas seen in that run (any property)
-  python3 - $WT >> $out <<'PY'
+  out=$ROOT/.run/mutants/$id.txt
+  ( cd $ROOT && VERIF_REPO=$WT VERIF_SEED=${VERIF_SEED:-1} bin/check $prop --tier ${TIER:-quick} > $out 2>&1; echo "exit=$?" >> $out )
+  python3 - $ROOT >> $out <<'PY'
 import json,os,sys,glob,collections
-fs=sorted(glob.glob('/verif/.cache/*.json'),key=os.path.getmtime)
+fs=sorted(glob.glob(sys.argv[1]+'/.cache/*.json'),key=os.path.getmtime)
 if fs:
     r=json.load(open(fs[-1]))
     c=collections.Counter(v['inv'] for v in r.get('violations',[]))
